@@ -74,10 +74,10 @@ func (m *Mutex) Unlock() {
 // RWMutex replaces sync.RWMutex (writer-preferring, like the standard one).
 type RWMutex struct {
 	rsem, wsem uint64 // addresses for the race detector's happens-before edges (as in sync.RWMutex)
-	writer   bool
-	readers  int
-	wwaiting int
-	waiters  []*G
+	writer     bool
+	readers    int
+	wwaiting   int
+	waiters    []*G
 }
 
 func (m *RWMutex) wakeAll(s *Sched) {
